@@ -387,6 +387,21 @@ type PreparedStatementFieldTracker struct {
 	// shared value that indicates number of param packet
 	paramsCounter int
 	columnsNum    uint16
+	// paramsNum is the number of parameter definitions the server announced (0 - unknown). A client with
+	// CLIENT_DEPRECATE_EOF gets no EOF packet after the definitions, their end is found by counting
+	paramsNum      uint16
+	columnsCounter int
+}
+
+// paramsFinished sets the handler of what follows the parameter definitions
+func (p *PreparedStatementFieldTracker) paramsFinished() {
+	// if columns_num > 0 column definition block will follow
+	// https://dev.mysql.com/doc/internals/en/com-stmt-prepare-response.html
+	if p.columnsNum > 0 {
+		p.proxyHandler.setQueryHandler(p.ColumnsTrackHandler)
+	} else {
+		p.proxyHandler.setQueryHandler(p.proxyHandler.QueryResponseHandler)
+	}
 }
 
 // NewPreparedStatementFieldTracker create new PreparedStatementFieldTracker
@@ -412,13 +427,7 @@ func (p *PreparedStatementFieldTracker) ParamsTrackHandler(ctx context.Context, 
 	if packet.IsEOF() {
 		p.proxyHandler.logger.Debugln("ParamsTrackHandler EOF", "column_num", p.columnsNum, "stmt_id", p.proxyHandler.protocolState.GetStmtID())
 
-		// if columns_num > 0 column definition block will follow
-		// https://dev.mysql.com/doc/internals/en/com-stmt-prepare-response.html
-		if p.columnsNum > 0 {
-			p.proxyHandler.setQueryHandler(p.ColumnsTrackHandler)
-		} else {
-			p.proxyHandler.setQueryHandler(p.proxyHandler.QueryResponseHandler)
-		}
+		p.paramsFinished()
 
 		if _, err := clientConnection.Write(packet.Dump()); err != nil {
 			p.proxyHandler.logger.WithError(err).WithField(logging.FieldKeyEventCode, logging.EventCodeErrorNetworkWrite).
@@ -443,13 +452,17 @@ func (p *PreparedStatementFieldTracker) ParamsTrackHandler(ctx context.Context, 
 		}
 	}
 
+	p.paramsCounter++
+	if !p.proxyHandler.expectEOFOnColumnDefinition() && p.paramsNum > 0 && p.paramsCounter == int(p.paramsNum) {
+		// no EOF packet will tell that this was the last parameter definition
+		p.paramsFinished()
+	}
+
 	if _, err := clientConnection.Write(field.Dump()); err != nil {
 		p.proxyHandler.logger.WithError(err).WithField(logging.FieldKeyEventCode, logging.EventCodeErrorNetworkWrite).
 			Debugln("Can't proxy output")
 		return err
 	}
-
-	p.paramsCounter++
 	return nil
 }
 
@@ -484,6 +497,12 @@ func (p *PreparedStatementFieldTracker) ColumnsTrackHandler(ctx context.Context,
 	updateFieldEncodedType(field, p.proxyHandler.setting.TableSchemaStore())
 
 	p.proxyHandler.protocolState.AddColumnDescription(field)
+
+	p.columnsCounter++
+	if !p.proxyHandler.expectEOFOnColumnDefinition() && p.columnsCounter == int(p.columnsNum) {
+		// no EOF packet will tell that this was the last column definition
+		p.proxyHandler.setQueryHandler(p.proxyHandler.QueryResponseHandler)
+	}
 
 	if _, err := clientConnection.Write(field.Dump()); err != nil {
 		p.proxyHandler.logger.WithError(err).WithField(logging.FieldKeyEventCode, logging.EventCodeErrorNetworkWrite).
